@@ -174,7 +174,49 @@ class Impl(object):
                 raise ValueError("unknown op %r" % (op,))
         except Exception as e:  # noqa: E722 - the exception class is the observation
             raised = canon_raised(type(e).__name__, str(e))
-        return {"raised": raised, "result": result, "state": canon_state(self.dynamic_state())}
+        return {"raised": raised, "result": result, "state": canon_state(self.dynamic_state()),
+                "aliased": self.shared_containers()}
+
+    def shared_containers(self):
+        """Python aliasing is outside the Gallina model (values there are immutable): this looks for it directly.
+        Within the live workflow state, the BOOKKEEPING containers -- the lists and dicts of task records
+        (ctxs.in, prev, next, retry), of staged entries (ctxs.in, prev, items, retry), the route lists and the rerun
+        lists -- must each be reachable along one path only; two paths to the same object mean that a later in-place
+        update of one silently changes the other (and that a persisted and a live conductor will diverge)."""
+        ws = getattr(self.c, "_workflow_state", None)
+        if ws is None:
+            return []
+        seen, shared = {}, []
+
+        def visit(o, path):
+            if isinstance(o, (list, dict)):
+                k = id(o)
+                if k in seen:
+                    shared.append([seen[k], path])
+                    return
+                seen[k] = path
+                it = o.items() if isinstance(o, dict) else enumerate(o)
+                for kk, v in it:
+                    visit(v, "%s.%s" % (path, kk))
+        for i, r in enumerate(ws.sequence):
+            for f in ("ctxs", "prev", "next", "retry"):
+                if f in r:
+                    visit(r[f], "sequence[%d].%s" % (i, f))
+        for i, st in enumerate(ws.staged):
+            for f in ("ctxs", "prev", "retry"):
+                if f in st:
+                    visit(st[f], "staged[%d].%s" % (i, f))
+            # the item table is created as [{"status": null}] * n (one dict n times) and its entries are only ever
+            # replaced, never updated in place: only the list itself is tracked
+            if "items" in st:
+                k = id(st["items"])
+                if k in seen:
+                    shared.append([seen[k], "staged[%d].items" % i])
+                seen[k] = "staged[%d].items" % i
+        visit(ws.routes, "routes")
+        visit(ws.reruns, "reruns")
+        visit(ws.tasks, "tasks")
+        return shared[:5]
 
 
 # ------------------------------------------------------------------------- the model
